@@ -146,7 +146,7 @@ func (q Quantity) timeDuration() (time.Duration, error) {
 	case "second", "seconds":
 		milliseconds := decimal.Decimal(q.value).Round(3).Shift(3).IntPart() // Keep decimal precision below seconds
 		duration = time.Millisecond * time.Duration(milliseconds)
-	case "millisecond":
+	case "millisecond", "milliseconds":
 		duration = time.Millisecond * time.Duration(value)
 	default:
 		return time.Duration(0), fmt.Errorf("%w: not a time-valued unit", ErrMismatchedUnit)
